@@ -149,10 +149,23 @@ def in_table(G):
     return True
 
 
+def stereo_printable(d):
+    """rs_isomer (a tuple of four node keys) and ez_isomer (a list of (key, key, key, key, 'cis'|'trans')) are carried by
+    the model like any other attribute value; anything else under these names is outside the literal printers"""
+    rs = d.get('rs_isomer')
+    if 'rs_isomer' in d and not (isinstance(rs, (tuple, list)) and all(isinstance(x, int) and not isinstance(x, bool) for x in rs)):
+        return False
+    ez = d.get('ez_isomer')
+    if 'ez_isomer' in d and not (isinstance(ez, (tuple, list)) and all(
+            isinstance(e, (tuple, list)) and all(isinstance(x, (int, str)) and not isinstance(x, bool) for x in e) for e in ez)):
+        return False
+    return True
+
+
 def modelable(G):
     """values the Gallina literal printers and the half-unit arithmetic cover"""
     for _, d in G.nodes(data=True):
-        if 'rs_isomer' in d or 'ez_isomer' in d:
+        if not stereo_printable(d):
             return False
     for _, _, d in G.edges(data=True):
         o = d.get('order', 1)
@@ -479,7 +492,36 @@ def ez_slash(rng):
     return '{' + body + '}.{' + ','.join(frs) + '}'
 
 
+# tetrahedral centres written with @ / @@ (pysmiles stores `rs_isomer`, a tuple of the four neighbour keys, one of which
+# may be an implicit hydrogen) on atoms that carry no descriptor, and the `x=` annotation on atoms that do
+CHIRAL_UNITS = ['C[C@H](N)O', 'C[C@@H](N)O', 'N[C@@H](C)C(=O)O', 'F[C@](Cl)(Br)I', 'C[C@H]1CCCO1', '[C@H](F)(Cl)Br', 'O[C@@H](C)CC',
+                'C[C@@](N)(O)CC', 'N[C@H](CS)C(=O)O', 'C[C@H](c1ccccc1)N', 'C[S@](=O)CC', 'C[P@](N)(O)=O', 'OC[C@H]1OC(O)[C@H](O)[C@@H](O)[C@@H]1O']
+CHIRAL_FIXED = ['{[#A]}.{#A=C[C@H](N)O}', '{[#A]}.{#A=F[C@](Cl)(Br)I}', '{[#A][#B]}.{#A=N[C@@H](C)C(=O)[$],#B=[$]O}',
+                '{[#A]|3}.{#A=[>]N[C@@H](C)C(=O)[<]}', '{[#A][#B]}.{#A=C[C@H](N)C[$],#B=[$]O}', '{[#A][#B]}.{#A=[$]C[C@H]1CCCO1,#B=[$]C}',
+                '{[#A][#B]}.{#A=C[C;x=S](N)[$],#B=[$]O}', '{[#A]|2}.{#A=[>][C;x=R](C)(F)[<]}', '{[#A][#H]}.{#A=C[C@H](N)C[$],#H=[$][H]}',
+                '{[#A][#B]}.{#A=C[C@H](N)C[!],#B=[!]CO}', '{[#A][#B]}.{#A=C[C@]([H])(N)C[$],#B=[$]O}']
+
+
+def chiral_case(rng):
+    if rng.random() < 0.4:
+        return rng.choice(CHIRAL_FIXED)
+    unit = rng.choice(CHIRAL_UNITS)
+    r = rng.random()
+    if r < 0.3:
+        return '{[#A]}.{#A=%s}' % unit
+    # a descriptor on a terminal atom that is not the centre: prepend / append a carbon that carries it
+    kind = rng.choice(['$', '$', '><'])
+    left, right = ('[$]', '[$]') if kind == '$' else ('[>]', '[<]')
+    if r < 0.65:
+        return '{[#A][#T]}.{#A=%sC%s,#T=%s%s}' % (unit, right if kind == '$' else '[>]', left if kind == '$' else '[<]',
+                                                  rng.choice(['C', 'O', 'N', '[H]', 'CC']))
+    n = rng.randint(2, 3)
+    return '{[#A]|%d}.{#A=%sC(%s)C%s}' % (n, left, unit if not unit.startswith('[C@') else 'C', right)
+
+
 def gen_case(rng):
+    if rng.random() < 0.05:
+        return {'kind': 'resolve', 'cls': 'chiral', 's': chiral_case(rng), 'legacy': True}
     if rng.random() < 0.09:
         if rng.random() < 0.2:
             c = dict(rng.choice(EZ_SAMPLER))
@@ -886,6 +928,7 @@ class C09(common.Prop):
                 ['{[#T][#V]|2[#T]}.{#V=[$]S\\C=C/[$],#T=[$]C}', '{[#V]|3}.{#V=[>]N(C)/C=C/[<]}',
                  '{[#T][#V][#W][#T]}.{#V=[>]C(C)(C)/C=C/[<],#W=[>]O/C=C/C[<],#T=[>]C[<]}']]
         out.append(dict(EZ_SAMPLER[0], kind='sample', cls='corpus', seed=7, w=300))
+        out += [{'kind': 'resolve', 'cls': 'corpus', 's': s, 'legacy': True} for s in CHIRAL_FIXED[:6]]
         # histories: a disturbing call first, then the judged call in the same process
         out.append({'kind': 'resolve', 'cls': 'corpus+history', 's': '{[#A][#B]}.{#A=[$]CC[$],#B=[$]OC}', 'legacy': True,
                     'prelude': ['mass-plain']})
